@@ -6,6 +6,8 @@
     * `Unit.Profile.__init__`          (pyroll/core/unit/unit.py)        → `profCopy`   (public explicit entries, SAME value references)
     * `BaseRollPass.Roll.__init__`     (pyroll/core/roll_pass/base.py)   → `rollCopy`
     * `Unit.init_solve` / `DiskElementUnit.init_solve` / `BaseRollPass.init_solve` → `initSolve`
+      (what `init_solve` does with an out-profile left by an earlier solve is READ from the source: `Reuse`,
+       `Gen.C12.outReuse` → `ensureOut`)
     * `Unit.solve`, `_solve_subunits`, `get_root_hook_results`, `evaluate_and_set_hooks`,
       `OutProfile.root_hook_fallback`  → `solveBody` / `solveU`  (an EFFECT TRACE: allocations, field writes,
                                           weak-link writes, in-place mutations)
@@ -122,6 +124,11 @@ def H.upd (h : H) (o : Nat) (ob : Obj) : H := { h with obj := fun i => if i = o 
 
 def S.write (s : S) (o f v : Nat) : S :=
   { s with h := s.h.upd o { s.h.obj o with fields := setF (s.h.obj o).fields f v }, tr := s.tr ++ [.write o f] }
+
+/-- `delattr(o, f)` / `o.__dict__.pop(f, None)`: the entry goes, the others keep their order -/
+def S.del (s : S) (o f : Nat) : S :=
+  { s with h := s.h.upd o { s.h.obj o with fields := (s.h.obj o).fields.filter (fun e => e.1 != f) },
+           tr := s.tr ++ [.write o f] }
 
 def S.setWeak (s : S) (o : Nat) (w : Option Nat) : S :=
   { s with h := s.h.upd o { s.h.obj o with weak := w }, tr := s.tr ++ [.weakw o] }
@@ -245,11 +252,22 @@ def safeFrom (fv : List Nat) : Prog → Bool
 
 def Prog.safe (p : Prog) : Bool := safeFrom [] p
 
-/-- the producers the solve model runs -/
+/-- what `Unit.init_solve` does with the out-profile of a previous solve (`if not self.out_profile: … [else: …]`) -/
+inductive Reuse where
+  /-- no `else:` branch: the out-profile is used again exactly as the previous solve left it -/
+  | keep
+  /-- `else:` branch: public entries that are neither root hooks nor handed over by the current incoming profile are
+  deleted, the incoming profile's public non-root-hook entries are set (by reference, as on creation), root-hook
+  entries are only filled in where missing (the previous results stay as start values) -/
+  | handOver
+  deriving DecidableEq, Repr
+
+/-- what the solve model takes from the TRANSLATED source: the producers it runs and the form of `init_solve` -/
 structure Producers where
   rot : Prog       -- `Rotator.OutProfile.classifiers`     (foreign 0 = the rotator's in-profile classifiers)
   pass : Prog      -- `BaseRollPass.OutProfile.classifiers` (foreign 0 = `roll_pass.classifiers`)
   sym : Prog       -- `SymmetricRollPass.classifiers`       (foreign 0 = `roll.groove.classifiers`)
+  reuse : Reuse := .keep   -- `Unit.init_solve`: treatment of a re-used out-profile
 
 def Producers.Safe (P : Producers) : Prop := P.rot.safe = true ∧ P.pass.safe = true ∧ P.sym.safe = true
 
@@ -417,10 +435,42 @@ def storeIn (s : S) (u p1 : Nat) : S × Nat :=
   let (a, i) := s.alloc (profCopy s.h .inProfile (some u) p1)
   (a.write u fIN i, i)
 
-/-- `if not self.out_profile: self.out_profile = self.OutProfile(self, in_profile)` -/
-def ensureOut (s : S) (u p1 : Nat) : S × Nat :=
+/-- the names of the root hooks of an out-profile (`{h.name for h in root_hooks if isinstance(self.out_profile, h.owner)}`),
+as far as the model has them: what `outHooks` sets — `technologically_orientated_cross_section` is a root hook of
+`BaseRollPass.OutProfile` only -/
+def outRoots (tag : Nat) : List Nat := if tag = 1 then [fCS, fCL, fT, fTOCS] else [fCS, fCL, fT]
+
+/-- `outdated = [k for k in self.out_profile.__dict__ if public and k not in roots and k not in handed_over]`
+`for k in outdated: delattr(self.out_profile, k)`; `fs` = the entries of the out-profile when the list was made -/
+def delOutdated (roots : List Nat) (handed : List (Nat × Nat)) (o : Nat) : List (Nat × Nat) → S → S
+  | [], s => s
+  | e :: r, s =>
+    delOutdated roots handed o r
+      (if isPublic e.1 && !roots.contains e.1 && (handed.lookup e.1).isNone then s.del o e.1 else s)
+
+/-- `for k, v in handed_over.items(): if k not in roots or k not in self.out_profile.__dict__: setattr(self.out_profile, k, v)`
+(`handed` is a dict: `v = handed[k]`); `setattr` keeps the position of an existing entry -/
+def handOver (roots : List Nat) (handed : List (Nat × Nat)) (o : Nat) : List (Nat × Nat) → S → S
+  | [], s => s
+  | e :: r, s =>
+    handOver roots handed o r
+      (if roots.contains e.1 && (getF s.h o e.1).isSome then s else s.write o e.1 ((handed.lookup e.1).getD e.2))
+
+/-- the `else:` branch of `init_solve` (form `Reuse.handOver`): `handed_over` = the public entries of the incoming
+profile, taken BEFORE anything is deleted or set -/
+def reuseOut (tag : Nat) (s : S) (o p1 : Nat) : S :=
+  let roots := outRoots tag
+  let handed := pubFields s.h p1
+  handOver roots handed o handed (delOutdated roots handed o (s.h.obj o).fields s)
+
+/-- `if not self.out_profile: self.out_profile = self.OutProfile(self, in_profile)` and, in the form `handOver`,
+`else:` hand the current incoming profile's entries over to the re-used out-profile -/
+def ensureOut (rf : Reuse) (tag : Nat) (s : S) (u p1 : Nat) : S × Nat :=
   match getF s.h u fOUT with
-  | some o => (s, o)
+  | some o =>
+    match rf with
+    | .keep => (s, o)
+    | .handOver => (reuseOut tag s o p1, o)
   | none =>
     let (a, o) := s.alloc (profCopy s.h .outProfile (some u) p1)
     (a.write u fOUT o, o)
@@ -441,18 +491,18 @@ def passInit (s : S) (ob : Obj) (o : Nat) : S :=
   else s
 
 /-- `Unit.init_solve`, `DiskElementUnit.init_solve`, `BaseRollPass.init_solve`; returns (state, in-profile, out-profile) -/
-def initSolve (f : Rec) (s : S) (u p : Nat) : S × Nat × Nat :=
+def initSolve (rf : Reuse) (f : Rec) (s : S) (u p : Nat) : S × Nat × Nat :=
   let ob := s.h.obj u
   let (s1, p1) := preProcess f s u p
   let (s2, i) := storeIn s1 u p1
-  let (s3, o) := ensureOut s2 u p1
+  let (s3, o) := ensureOut rf ob.tag s2 u p1
   (passInit (ensureDisks s3 u ob) ob o, i, o)
 
 /-- `Unit.solve(in_profile)`; `f` solves a sub-unit -/
 def solveBody (P : Producers) (f : Rec) (s : S) (u p : Nat) : S × Nat :=
   let (k, s0) := s.popIt
   let ob := s0.h.obj u
-  let (s1, i, o) := initSolve f s0 u p
+  let (s1, i, o) := initSolve P.reuse f s0 u p
   let roll := if ob.tag = 1 then getF s1.h u fROLL else none
   let cs := subItems s1.h u
   let s2 := iterN k (iterBody P f u i o roll ob.tag ob.ovr cs) s1
